@@ -11,6 +11,12 @@ N = lambda s: {'n': s}
 P = lambda *segs: {'p': list(segs)}
 SELF, SKIP = {'self': 1}, {'skip': 1}
 FRESH = ['x', 'y', 'z', 'p', 'q', 'r', 's', 't']
+# SC18: record keys / output names that are PLAIN str spelled like the reserved keys (Reserved('SELF') == 'SELF').
+# Shape 'rdict' = records {'SELF': int, 'SKIP': int, 'c': {'SELF': int, 'SKIP': [int, int]}}; chains over it draw
+# their fresh output names from FRESH_R, so the spellings occur as input keys, output keys, assign keys, select
+# keys, nested path segments and dict-form record keys.
+RESERVED_NAMES = ['SELF', 'SKIP']
+FRESH_R = ['SELF', 'SKIP', 'x', 'y', 'SKIP', 'SELF', 'z', 'q']
 
 
 def wl(xs):
@@ -28,6 +34,8 @@ def make_items(rng, shape, n):
     a, b = rng.randrange(0, 9), rng.randrange(0, 9)
     if shape == 'dict':
       items.append(wd(a=a, b=b, c=wd(d=rng.randrange(0, 9), l=wl([a + 10, b + 10]))))
+    elif shape == 'rdict':
+      items.append(wd(SELF=a, SKIP=b, c=wd(SELF=rng.randrange(0, 9), SKIP=wl([a + 10, b + 10]))))
     elif shape == 'int':
       items.append(a)
     elif shape == 'cols':
@@ -46,6 +54,7 @@ def make_items(rng, shape, n):
 
 def schema_of(shape):
   return {'dict': ('rec', {'a': 'int', 'b': 'int', 'c': 'nested'}), 'int': ('val', 'int'),
+          'rdict': ('rec', {'SELF': 'int', 'SKIP': 'int', 'c': 'rnested'}),
           'cols': ('rec', {'v': 'col', 'w': 'col'}), 'colsfix': ('rec', {'v': 'col', 'w': 'col'}),
           't2': ('val', 't2')}[shape]
 
@@ -67,6 +76,8 @@ def readable(schema, rng):
     out.append((N(name) if rng.random() < 0.7 else P(name), t))
     if t == 'nested':
       out += [(P(name, 'd'), 'int'), (P(name, 'l'), 'col'), (P(name, 'l', rng.randrange(2)), 'int')]
+    if t == 'rnested':
+      out += [(P(name, 'SELF'), 'int'), (P(name, 'SKIP'), 'col'), (P(name, 'SKIP', rng.randrange(2)), 'int')]
     if t == 't2':
       out += [(P(name, rng.randrange(2)), 'int')]
     if t == 'dictuv':
@@ -147,27 +158,32 @@ def out_types(fname, in_types):
   return outs
 
 
-def fresh_names(rng, taken, n):
-  free = [x for x in FRESH if x not in taken]
+def fresh_names(rng, taken, n, pool=None):
+  free = []
+  for x in (FRESH if pool is None else pool):
+    if x not in taken and x not in free:
+      free.append(x)
   rng.shuffle(free)
+  if pool is not None and rng.random() < 0.7:       # the reserved spellings first, when they are free
+    free.sort(key=lambda x: x not in RESERVED_NAMES)
   return free[:n] if len(free) >= n else None
 
 
-def out_spec(rng, otypes, taken, allow_self=True):
+def out_spec(rng, otypes, taken, allow_self=True, pool=None):
   """-> (spec, new entries {name: type} | ('val', t) | None)"""
   n = len(otypes)
   r = rng.random()
   if allow_self and r < 0.15:
     return {'one': SELF}, ('val', otypes[0] if n == 1 else ('t2' if otypes == ['int', 'int'] else 'any'))
   if n == 1 and otypes[0] == 'dictuv' and r < 0.5:
-    nm = fresh_names(rng, taken, 2)
+    nm = fresh_names(rng, taken, 2, pool)
     if nm:
       return {'one': {'dk': [[nm[0], N('u')], [nm[1], P('v')]]}}, {nm[0]: 'int', nm[1]: 'int'}
   if n > 1 and r < 0.3:
-    nm = fresh_names(rng, taken, 1)
+    nm = fresh_names(rng, taken, 1, pool)
     if nm:
       return {'one': N(nm[0])}, {nm[0]: 't2' if otypes == ['int', 'int'] else 'any'}
-  nm = fresh_names(rng, taken, n)
+  nm = fresh_names(rng, taken, n, pool)
   if nm is None:
     return None, None
   keys, entries = [], {}
@@ -192,6 +208,7 @@ def out_spec(rng, otypes, taken, allow_self=True):
 def gen_chain(rng, shape, max_len, fail=None, batchy=0.15):
   """-> specs.  `fail`: {'kind': err kind, 'values': [..]} makes one function a fail_on."""
   schema = schema_of(shape)
+  names_pool = FRESH_R if shape == 'rdict' else None
   specs = []
   n = rng.randrange(1, max_len + 1)
   fail_at = rng.randrange(n) if fail else -1
@@ -222,8 +239,8 @@ def gen_chain(rng, shape, max_len, fail=None, batchy=0.15):
       keys = [N(x) for x in names]
       sp = {'op': 'select', 'in': {'one': keys[0]} if len(keys) == 1 and rng.random() < 0.5 else {'many': keys}}
       new = {x: body[x] for x in names}
-      if rng.random() < 0.3:
-        nm = fresh_names(rng, taken, len(keys))
+      if rng.random() < (0.3 if names_pool is None else 0.5):
+        nm = fresh_names(rng, taken, len(keys), names_pool)
         if nm:
           sp['out'] = {'many': [N(x) for x in nm]} if len(nm) > 1 or rng.random() < 0.5 else {'one': N(nm[0])}
           new = {o: body[x] for o, x in zip(nm, names)}
@@ -274,9 +291,9 @@ def gen_chain(rng, shape, max_len, fail=None, batchy=0.15):
     else:
       fn = mk_fn(rng, fname)
     if op == 'apply':
-      ospec, entries = out_spec(rng, otypes, set())
+      ospec, entries = out_spec(rng, otypes, set(), pool=names_pool)
     else:
-      ospec, entries = out_spec(rng, otypes, taken, allow_self=False)
+      ospec, entries = out_spec(rng, otypes, taken, allow_self=False, pool=names_pool)
       if kind != 'rec':
         continue
     if ospec is None:
@@ -312,8 +329,31 @@ WILD_KEYS = [N('a'), N('b'), N('zz'), P('c', 'd'), P('c', 'l', 5), P('a', 'q'), 
              N('v'), P('c')]
 
 
-def gen_wild(rng, max_len):
-  """specs chosen without looking at the records: exercises the builder's checks and run-time routing errors"""
+WILD_KEYS_R = [N('SELF'), N('SKIP'), P('c', 'SELF'), P('c', 'SKIP', 0), P('SELF'), P('SKIP', 'q'), SELF, SKIP, {'lit': 7},
+               N('zz'), P('c'), N('SKIP'), N('SELF')]
+WILD_OUT_R = [N('SELF'), N('SKIP'), N('x'), SKIP, SELF, P('SELF', 'w'), P('z', 'SKIP'), P('SKIP'),
+              {'dk': [['SKIP', N('u')], ['SELF', N('v')]]}, {'dk': [['s', N('u')]]}, {'lit': 5}]
+
+
+def gen_wild(rng, max_len, reserved_names=False):
+  """specs chosen without looking at the records: exercises the builder's checks and run-time routing errors.
+  `reserved_names`: keys are drawn from the pools in which plain names are spelled like the reserved keys."""
+  if reserved_names:
+    global WILD_KEYS
+    saved = WILD_KEYS
+    WILD_KEYS = WILD_KEYS_R
+    try:
+      specs = gen_wild(rng, max_len)
+    finally:
+      WILD_KEYS = saved
+    for sp in specs:
+      if sp['op'] == 'aggregate':      # aggregate output keys stay as the plain wild arm draws them
+        continue
+      for part in ('out', 'keys'):
+        if sp.get(part) and rng.random() < 0.8:
+          ks = [rng.choice(WILD_OUT_R) for _ in (sp[part].get('many') or [0])]
+          sp[part] = {'one': ks[0]} if 'one' in sp[part] else {'many': ks}
+    return specs
   specs = []
   for _ in range(rng.randrange(1, max_len + 1)):
     op = rng.choice(['select', 'apply', 'assign', 'filter', 'sink', 'batch', 'aggregate', 'assign'])
